@@ -113,7 +113,7 @@ var srcC07c = []*g2lTarget{
 var srcC07d = []*g2lTarget{
 	{
 		// verifier.VerifyBlob after the payload is decoded: digest algorithm, descriptor comparison, metadata
-		file: "verifier/verifier.go", recv: "verifier", fn: "VerifyBlob", leanName: "verifyBlobTail", after: "json.Unmarshal",
+		file: "verifier/verifier.go", recv: "verifier", fn: "VerifyBlob", recvName: "v", leanName: "verifyBlobTail", after: "json.Unmarshal",
 		outer: []string{"descGenFunc", "opts", "logger", "outcome", "payload"},
 		params: "(env : VEnv) (descGenFunc : digest.Algorithm → ocispec.Descriptor × Option GoLite.Err) (opts : BlobVerifierVerifyOptions) " +
 			"(err : Option GoLite.Err) (outcome : BlobOutcome) (payload : envelope.Payload)",
